@@ -352,6 +352,13 @@ Theorem C09_tuple_value_strict : forall n data v,
 Proof. exact tuple_value_strict. Qed.
 Print Assumptions C09_tuple_value_strict.
 
+(* lists of 3-vectors and of quaternions (std::vector<cvm::rvector>, std::vector<cvm::quaternion>): accepted iff the
+   whole text is a sequence of parenthesised tuples, each followed by white space or the end *)
+Theorem C09_tuple_vector_strict : forall n data vs,
+  vector_dyn (extract_tuple n) data = VAccept vs <-> tokens_of (extract_tuple n) data vs.
+Proof. exact tuple_vector_strict. Qed.
+Print Assumptions C09_tuple_vector_strict.
+
 (* ---------------------------------------------------------------- examples: the premises are satisfiable *)
 
 Definition str_width := [119; 105; 100; 116; 104].                 (* "width" *)
